@@ -398,6 +398,7 @@ def result_fixtures():
     return {
         "decay+irf (simulated, 4 evaluations)": lambda: W.make_result(4),
         "decay+irf (simulated, 1 evaluation)": lambda: W.make_result(1),
+        "scheme loaded from a scheme file before optimising": lambda: W.make_result_from_loaded_scheme(2),
         "weights+relations+penalty+constraints (interval lists)": from_features(
             {**NEUTRAL, "constraint_interval": "list", "relation_interval": "list", "weight": "intervals", "penalty": "yes", "scale": "set"}, 3),
         "spectral global megacomplex (full model), dispersion irf": from_features({**NEUTRAL, "extra": "spectral-global", "irf": "dispersion"}, 3),
